@@ -103,8 +103,15 @@ func main() {
 				}
 				h1, _, _ := blob()
 				h2, _, _ := blob()
+				from := name
+				if rng.Intn(3) == 0 {
+					// renamed and edited in one commit (as RenameAnalysis reports it): FileDiff files the script under
+					// the NEW name
+					from = "renamed-from/" + name
+					stats["modify_with_rename"]++
+				}
 				changes = append(changes, &object.Change{
-					From: object.ChangeEntry{Name: name, TreeEntry: object.TreeEntry{Name: name, Hash: h1}},
+					From: object.ChangeEntry{Name: from, TreeEntry: object.TreeEntry{Name: from, Hash: h1}},
 					To:   object.ChangeEntry{Name: name, TreeEntry: object.TreeEntry{Name: name, Hash: h2}}})
 				diffs[name] = items.FileDiffData{Diffs: ds}
 				t := strings.Join(es, ",")
